@@ -20,6 +20,19 @@ ALL = ["C%02d" % i for i in range(1, 21)]
 
 
 def run_all(repo, pids=None, share=True):
+    out = _run_all(repo, pids, share)
+    retry = [p_ for p_, v in out.items() if v["status"] == "error"]
+    if retry and os.environ.get("DEEP_VERIF_NORMALISE", "1") != "0":
+        # see check.py: analyse the tree exactly as written when the normalised form is not understood
+        os.environ["DEEP_VERIF_NORMALISE"] = "0"
+        try:
+            out.update(_run_all(repo, retry, share))
+        finally:
+            os.environ["DEEP_VERIF_NORMALISE"] = "1"
+    return out
+
+
+def _run_all(repo, pids=None, share=True):
     known = report.load_known()
     out = {}
     ctx = None
@@ -30,8 +43,12 @@ def run_all(repo, pids=None, share=True):
                 ctx = report.Ctx(repo)
             mod = importlib.import_module("sa.props.%s" % pid.lower())
             report.CURRENT = None
+            cache = ctx._extra.setdefault("borrowed", {}) if share else {}
             try:
-                res = mod.run(ctx, "quick")
+                res = cache.get(pid)
+                if res is None:
+                    res = mod.run(ctx, "quick")
+                    cache[pid] = res
                 if res.floor_errors and not res.findings:
                     raise AnalysisError("; ".join(res.floor_errors))
             except AnalysisError as e:
